@@ -91,11 +91,13 @@ def _uniq_name(draw, pool, used, label):
 
 
 class _Names(set):
-    """Names used in one body scope; `outer` = names of the enclosing body (a case body may reuse them)."""
+    """Names used in one body scope; `outer` = names of the enclosing body (a case body may reuse them),
+    `outer_len` = literal lengths of the enclosing body's members by name."""
 
-    def __init__(self, outer=None):
+    def __init__(self, outer=None, outer_len=None):
         super().__init__()
         self.outer = set(outer or ())
+        self.outer_len = dict(outer_len or {})
 
 
 class _Gen:
@@ -146,7 +148,28 @@ class _Gen:
             return None
         return t
 
+    VARIANTS = (("Npc", "NPC"), ("Http", "HTTP"), ("Emf", "EMF"), ("Eif", "EIF"), ("Gfx", "GFX"), ("Id", "ID"))
+
     def new_type_name(self, dir_):
+        if self.boolean(0.1):
+            # NpcInfo in one directory, NPCInfo in another: different classes, same module stem
+            cands = []
+            for (n, k, d) in self.decl_order:
+                if d == dir_ or n in ("PacketFamily", "PacketAction"):
+                    continue
+                for a, b in self.VARIANTS:
+                    for x, y in ((a, b), (b, a)):
+                        if x in n:
+                            v = n.replace(x, y, 1)
+                            sn = spec.pascal_to_snake(v)
+                            if (v not in self.type_names and v not in BAD_TYPE_NAMES and sn == spec.pascal_to_snake(n)
+                                    and sn not in self.snake_by_dir[dir_] and sn not in SUBDIRS.get(dir_, ())):
+                                cands.append(v)
+            if cands:
+                cand = self.pick(sorted(set(cands)))
+                self.type_names.add(cand)
+                self.snake_by_dir[dir_].add(spec.pascal_to_snake(cand))
+                return cand
         for _ in range(50):
             n = self.draw(st.integers(1, 3))
             name = "".join(self.draw(st.sampled_from(TYPE_WORDS)) for _ in range(n))
@@ -259,8 +282,8 @@ class _Gen:
         return d
 
     # -- bodies ----------------------------------------------------------------
-    def gen_body(self, dir_, lex=False, reached_optional=False, depth=0, max_n=6, is_case=False, outer_names=None):
-        ctx = {"dir": dir_, "lex": lex, "names": _Names(outer_names), "opt": reached_optional, "depth": depth,
+    def gen_body(self, dir_, lex=False, reached_optional=False, depth=0, max_n=6, is_case=False, outer_names=None, outer_len=None):
+        ctx = {"dir": dir_, "lex": lex, "names": _Names(outer_names, outer_len), "opt": reached_optional, "depth": depth,
                "switchable": [], "switched": set(), "fields": {}, "dummy": False, "is_case": is_case,
                "parent_opt": reached_optional}
         n = self.draw(st.integers(0, max_n))
@@ -346,8 +369,13 @@ class _Gen:
         ins = {"tag": "field", "name": name, "type": typ}
         r = self.an.resolve(typ)
         if r["kind"] == "string":
-            if self.boolean(0.45):
+            same = ctx["names"].outer_len.get(name)
+            if same is not None and self.boolean(0.7):
+                ins["length"] = same
+            elif self.boolean(0.45):
                 ins["length"] = str(self.draw(st.integers(0, 6)))
+            if ins.get("length") is not None:
+                ctx.setdefault("literal_len", {})[name] = ins["length"]
                 if self.boolean(0.45):
                     ins["padded"] = True
                 elif self.f["explicit_false"] and self.boolean(0.1):
@@ -444,8 +472,13 @@ class _Gen:
         name = _uniq_name(self.draw, FIELD_NAMES, ctx["names"], "f")
         ins = {"tag": "array", "name": name}
         delimited = ctx["lex"] and self.boolean(0.55)
+        same = ctx["names"].outer_len.get(name)
+        if length is None and same is not None and self.boolean(0.7):
+            length = same
         if length is None and self.boolean(0.4):
             length = str(self.draw(st.integers(0, 4)))
+        if length is not None and length.isdigit():
+            ctx.setdefault("literal_len", {})[name] = length
         ins["type"] = self.element_type(ctx, delimited, length is not None)
         if length is not None:
             ins["length"] = length
@@ -512,6 +545,8 @@ class _Gen:
                     ctx["opt"] = True
                 else:
                     self.drop("optional_lenref")
+            if self.f["hardcoded_named"] and not ins.get("optional") and self.boolean(0.15):
+                ins["value"] = self.hard_text()        # its length travels in the length field
             body.append(ins)
         else:
             n_before = len(body)
@@ -620,7 +655,8 @@ class _Gen:
                 else:
                     c["body"], sub = self.gen_body(ctx["dir"], lex=ctx["lex"], reached_optional=popt,
                                                    depth=ctx["depth"] + 1, max_n=self.size["case_n"], is_case=True,
-                                                   outer_names=set(ctx["names"]))
+                                                   outer_names=set(ctx["names"]),
+                                                   outer_len=ctx.setdefault("literal_len", {}))
                     c["_opt"] = sub["opt"]
                     c["_dummy"] = sub["dummy"]
             cm = self.comment()
